@@ -147,3 +147,16 @@ func TestC13Revert(t *testing.T) {
 	runStackProperty(t, "C13", "TestC13Revert", func(rt *rapid.T) SProgram { return GenSProgram(rt, c13RevertCfg) },
 		func(p SProgram, x *SExec) bool { return x.Labels["ctlrevert:ok"] > 0 && x.Labels["promote:ok"] > 0 })
 }
+
+// ---- C15 (the detach clause, through the controller) ------------------------------
+
+var c15StackCfg = SGenCfg{PingsPct: 50, RFs: []int{2, 3, 3}, MinOps: 4, MaxOps: 14, FaultPct: 35, SlowFaults: true, MaxSlow: 2, NoSpare: true,
+	W: map[string]int{"write": 30, "read": 12, "sync": 4, "nodedrop": 22, "pingfail": 8, "readd": 18}}
+
+// TestC15Detach — a replica whose data connection breaks (while idle or with a
+// request in flight), whose request exceeds its deadline or whose ping fails is
+// detached; the request in flight ends promptly.
+func TestC15Detach(t *testing.T) {
+	runStackProperty(t, "C15", "TestC15Detach", func(rt *rapid.T) SProgram { return GenSProgram(rt, c15StackCfg) },
+		func(p SProgram, x *SExec) bool { return x.Labels["nodedrop"]+x.Labels["pingfail"] > 0 })
+}
